@@ -61,8 +61,10 @@ fn geo1(ctx: &mut Ctx, t: &Tab, tag: &str) {
 fn renum(ctx: &mut Ctx, t: &Tab, perm: &[usize], tag: &str) {
     ctx.case("renum", tag, || format!("{} {}", t.enc(), enc_list(&perm[1..])), || {
         let a = ks(&t.to_partial_dsym());
-        let c = ks(&t.renumbered(perm).to_partial_dsym());
-        format!("{} {}", a, c)
+        let v = t.renumbered(perm).to_partial_dsym();
+        let c = ks(&v);
+        // the tables the implementation really saw, for the Spec's "is a renumbering" clause
+        format!("{} {} {}", a, c, Tab::from_dsym(&v).enc())
     });
 }
 
